@@ -112,6 +112,7 @@ class Monitor:
         e["new_tokens"] = lambda s: s.tokens[n0:] if s is st else s.tokens[len(s.tokens):]
         e["ntokens"] = lambda s: len(s.tokens)
         e["strfun"] = lambda name, *a: st.getLines(*a) if name == "GetLines" else NotImplemented
+        e["aslist"] = lambda x: [x] if isinstance(x, str) else list(x)
         e["max"], e["min"], e["len"], e["range"], e["all"], e["any"], e["bool"] = max, min, len, range, all, any, bool
         if have_result:
             e["result"] = result
